@@ -329,7 +329,7 @@ pub fn replay_e3(prop: &str, case: serde_json::Value) -> R<CaseMeta> {
 // ---------------------------------------------------------------------------------------------
 // free-running stress parts
 
-use crate::stress::{run_register, run_shared, StressCase};
+use crate::stress::{run_mixed, run_register, run_shared, StressCase, HANG_SIG};
 
 pub const STRESS_REGISTER_RULE: &str = "free-running stress (no scheduler): 2-4 writer threads, each the only writer of its key, overwrite (or alternately put/remove) it with self-describing payloads of varying size while 4-8 reader threads hammer get/get_reader/get_range on those keys; oracle: no call fails, every returned byte string is one complete committed payload of that key, and every read obeys the atomic-register condition (it observes a version between the last write that returned before the read began and the last write that began before the read ended; timestamps are taken outside the calls, which only widens the intervals), final state = last write. This reaches code between the scheduler's yield points. non-trivial = run in which >=1 read overlapped a write (measured); distinct by (parameters, overlap count)";
 
@@ -358,7 +358,7 @@ pub fn run_stress_register(ctx: &Ctx, acc: &Mutex<Acc>) -> Option<Violation> {
     PAR_LIMIT.store(2, std::sync::atomic::Ordering::SeqCst);
     sched::remove_hook();
     let hot_cases = match ctx.tier { Tier::Quick => 1, Tier::Thorough => 4 };
-    let v = campaign(ctx, acc, "stress-hot-key", "STRESS-R", hot_cases, 0, |_| hot_strategy(big), run_register);
+    let v = hang_is_inconclusive(campaign(ctx, acc, "stress-hot-key", "STRESS-R", hot_cases, 0, |_| hot_strategy(big), run_register));
     PAR_LIMIT.store(usize::MAX, std::sync::atomic::Ordering::SeqCst);
     if v.is_some() {
         return v;
@@ -366,7 +366,7 @@ pub fn run_stress_register(ctx: &Ctx, acc: &Mutex<Acc>) -> Option<Violation> {
     // the cases are multi-threaded themselves: run at most two at a time so that their threads really run in parallel
     PAR_LIMIT.store(2, std::sync::atomic::Ordering::SeqCst);
     sched::remove_hook();
-    let v = campaign(ctx, acc, "stress-register", "STRESS-R", cases, 0, |_| stress_strategy(big), run_register);
+    let v = hang_is_inconclusive(campaign(ctx, acc, "stress-register", "STRESS-R", cases, 0, |_| stress_strategy(big), run_register));
     PAR_LIMIT.store(usize::MAX, std::sync::atomic::Ordering::SeqCst);
     v
 }
@@ -376,8 +376,32 @@ pub fn run_stress_shared(ctx: &Ctx, acc: &Mutex<Acc>, dangling: bool, listing: b
     let big = ctx.tier == Tier::Thorough;
     PAR_LIMIT.store(3, std::sync::atomic::Ordering::SeqCst);
     sched::remove_hook();
-    let v = campaign(ctx, acc, "stress-shared", if listing { "STRESS-L" } else { "STRESS-D" }, cases, 0, |_| stress_strategy(big), move |c| run_shared(c, dangling, listing));
+    let v = hang_is_inconclusive(campaign(ctx, acc, "stress-shared", if listing { "STRESS-L" } else { "STRESS-D" }, cases, 0, |_| stress_strategy(big), move |c| run_shared(c, dangling, listing)));
     PAR_LIMIT.store(usize::MAX, std::sync::atomic::Ordering::SeqCst);
+    v
+}
+
+pub const STRESS_MIXED_RULE: &str = "free-running stress: 2-6 writer threads (put/remove/remove_range/explicit checkpoint over 3 keys and 3 contents, N in {1,2,100} so rollover checkpoints are frequent) and 1-8 reader threads (get/get_range/get_size on the same keys) run really in parallel; oracle: every thread returns within a 60 s watchdog (the work takes well under a second); this reaches blocking that the deterministic scheduler cannot produce, e.g. a second shared acquisition of the non-re-entrant state lock behind a queued writer";
+
+pub fn run_stress_mixed(ctx: &Ctx, acc: &Mutex<Acc>) -> Option<Violation> {
+    let cases = ctx.tier.scale(1, 8);
+    let big = ctx.tier == Tier::Thorough;
+    PAR_LIMIT.store(2, std::sync::atomic::Ordering::SeqCst);
+    sched::remove_hook();
+    let v = campaign(ctx, acc, "stress-mixed", "STRESS-M", cases, 0, |_| stress_strategy(big), run_mixed);
+    PAR_LIMIT.store(usize::MAX, std::sync::atomic::Ordering::SeqCst);
+    v
+}
+
+/// A hang inside a stress part of a check that does not decide deadlock-freedom is inconclusive.
+fn hang_is_inconclusive(v: Option<Violation>) -> Option<Violation> {
+    if let Some(v) = &v {
+        if v.sig == HANG_SIG {
+            eprintln!("HARNESS-ERROR: a free-running stress case hung (see C15): {}", v.detail);
+            crate::common::remove_own_scratch();
+            std::process::exit(2);
+        }
+    }
     v
 }
 
@@ -387,6 +411,7 @@ pub fn replay_stress(engine: &str, case: serde_json::Value) -> R<CaseMeta> {
     let mut last = Ok(CaseMeta::default());
     for _ in 0..5 {
         last = match engine {
+            "STRESS-M" => run_mixed(&case),
             "STRESS-R" => run_register(&case),
             "STRESS-L" => run_shared(&case, false, true),
             _ => run_shared(&case, true, false),
